@@ -143,6 +143,7 @@ SafeTrim ==
   /\ \A f \in present : mt[f] <= TrimLimit + MtimeInterval - Margin \/ mt[f] >= TrimLimit + MtimeInterval + Margin
   /\ tt.k = "time" => /\ (tt.v <= TrimInterval - Margin \/ tt.v >= TrimInterval + Margin)
                       /\ (tt.v <= -MtimeInterval - Margin \/ tt.v >= -MtimeInterval + Margin)
+                      /\ (tt.v <= -FarFuture - Margin \/ tt.v >= -FarFuture + Margin)
 
 \* ------------------------------------------------------------------ Trim, what the statement fixes
 \* "skip": a trim completed less than a day ago -> nothing at all may happen.
